@@ -326,8 +326,10 @@ Step(S, ev) ==
     [] ev.e = "setChannelAllocMode" -> [S EXCEPT !.alloc = IF ev.v < -1 \/ ev.v >= 3 THEN -1 ELSE ev.v]
     [] ev.e = "setAutoArpeggio" -> [S EXCEPT !.arp = IF ev.v # 0 THEN 1 ELSE 0]
     [] ev.e = "setLoopEnabled" -> [S EXCEPT !.loop = ev.v # 0]
-    [] ev.e = "setTempo" -> IF ev.t \in {"huge", "inf"} THEN [S EXCEPT !.tempo = "fast"]
-                            ELSE IF ev.t \in {"neg1", "zero", "ninf"} THEN S ELSE [S EXCEPT !.tempo = "norm"]       \* tempo <= 0 is ignored
+    \* tempo <= 0, NaN and multipliers beyond 1e6 are ignored (8786f57; before that repair huge / inf made every tick "fast"
+    \* and opn2_play never returned on a looping song)
+    [] ev.e = "setTempo" -> IF ev.t \in {"huge", "inf", "nan"} THEN (IF Repaired THEN S ELSE [S EXCEPT !.tempo = "fast"])
+                            ELSE IF ev.t \in {"neg1", "zero", "ninf"} THEN S ELSE [S EXCEPT !.tempo = "norm"]
     [] ev.e \in {"openBankData", "openBankFile"} ->
          IF R(ev) = 0 /\ Assets[ev.a].t = "bank"
          THEN ApplySetup([S EXCEPT !.banks = Assets[ev.a].keys, !.full = Assets[ev.a].full, !.vset = 0]) ELSE S
